@@ -121,12 +121,24 @@ def finish(check, seed=0, checker_cmd=''):
     if not new:
         lines.append('OK property=%s obligations=%d discharged=%d known_findings=%d' % (pid, n, nd, len(known_hits)))
     write_evidence(check, seed, checker_cmd, len(new), len(known_hits))
-    print('\n'.join(lines))
     rules = sorted(counts)
-    print('analysed: %d files, %d functions; rule instances: %s' % (
+    lines.append('analysed: %d files, %d functions; rule instances: %s' % (
         len(check.analysed['files']), len(check.analysed['functions']),
         ', '.join('%s=%d' % (r, counts[r]) for r in rules)))
+    emit('\n'.join(lines))
     return status
+
+
+def emit(text):
+    """single write; a reader that closed the pipe early must not turn the verdict into a traceback"""
+    try:
+        sys.stdout.write(text + '\n')
+        sys.stdout.flush()
+    except BrokenPipeError:
+        try:
+            sys.stdout = open(os.devnull, 'w')
+        except OSError:
+            pass
 
 
 def write_replay(check, obligations):
